@@ -108,7 +108,11 @@ func (r *RequireModule) loadNative(path string) (*js.Object, error) {
 				}
 			} else {
 				if !strings.HasPrefix(path, NodePrefix) {
-					r.nativeModules[NodePrefix+path] = module
+					// 'node:'+name means this core module unless a module is registered under that very name
+					alias := NodePrefix + path
+					if r.r.native[alias] == nil && native[alias] == nil && builtin[alias] == nil {
+						r.nativeModules[alias] = module
+					}
 				}
 			}
 		}
